@@ -67,6 +67,22 @@ func init() {
 		n := w.concInt(args[2].(*Term), "FindAllString n")
 		return w.strSlice(w.nativeRegexp(args[0]).FindAllString(src, n))
 	}
+	intrinsics["(*regexp.Regexp).FindAllStringIndex"] = func(w *Worker, _ *ssa.Function, args []Value, _ ssa.CallInstruction) Value {
+		src, ok := concrete(w, args[1], "FindAllStringIndex")
+		if !ok {
+			w.fail("regexp FindAllStringIndex on a symbolic string")
+		}
+		n := w.concInt(args[2].(*Term), "FindAllStringIndex n")
+		locs := w.nativeRegexp(args[0]).FindAllStringIndex(src, n)
+		if locs == nil {
+			return SliceV{}
+		}
+		out := make([]Value, len(locs))
+		for i, l := range locs {
+			out[i] = SliceV{s: []Value{w.B.Const(uint64(l[0]), 64), w.B.Const(uint64(l[1]), 64)}}
+		}
+		return SliceV{s: out}
+	}
 	intrinsics["(*regexp.Regexp).MatchString"] = func(w *Worker, _ *ssa.Function, args []Value, _ ssa.CallInstruction) Value {
 		src, ok := concrete(w, args[1], "MatchString")
 		if !ok {
